@@ -20,6 +20,9 @@ def dump_input(ent):
     """an entity's record as the implementation holds it now (after any rotation by the harness)"""
     rec = ent.record
     d = recutil.dump_record(rec)
+    for f, g in zip(rec.features, d["features"]):
+        if f.type == "source" and "plasmid" in f.qualifiers:
+            g["plasmid"] = f.qualifiers["plasmid"]
     d["refs"] = [recutil.ref_id(r) for r in rec.annotations["references"]] if "references" in rec.annotations else None
     d["topology"] = rec.annotations.get("topology")
     d["other"] = [[k, v] for k, v in rec.annotations.items() if k not in ("references", "topology") and isinstance(v, str)]
@@ -65,11 +68,13 @@ def c_cit(c):
     return "(QStr %s)" % c_str(c)
 
 
-def c_feature(f):
+def c_feature(f, intern=None):
     q = f.get("q")
     label = 0 if q is None else q + 1
-    if f.get("plasmid_label") is not None:
-        label = f["plasmid_label"]
+    if f["type"] == "source" and f.get("plasmid") is not None and intern is not None:
+        # the qualifiers of a provenance feature, as add_as_source builds them: they name the plasmid
+        pid = f["plasmid"][0] if isinstance(f["plasmid"], list) else f["plasmid"]
+        label = 901 + intern(pid)
     quals = "(Q %d %s)" % (label, "(Some [%s])" % "; ".join(c_cit(c) for c in f["cit"]) if "cit" in f else "None")
     return "(F %s %d %s [%s])" % ("true" if f["type"] == "source" else "false", recutil.type_id(f["type"]), quals,
                                   "; ".join(recutil.c_part(p) for p in f["parts"]))
@@ -109,7 +114,7 @@ def c_record(d, kind, intern):
         raise ValueError("tracks")
     topo = "None" if d.get("topology") is None else "(Some %s)" % c_str(d["topology"])
     return '(PR %s (dna "%s") %d [%s] (AN %s %s %s) [] %d)' % (
-        kind, d["seq"], intern(d["id"]), "; ".join(c_feature(f) for f in feats), topo, c_refs(d.get("refs")),
+        kind, d["seq"], intern(d["id"]), "; ".join(c_feature(f, intern) for f in feats), topo, c_refs(d.get("refs")),
         c_other(d.get("other", []), intern), intern(d["name"]))
 
 
@@ -126,15 +131,7 @@ def c_case(ctx, vector, modules, kwargs, obs, product, unused_objs=None):
     ms = "[" + "; ".join(ent(*m) for m in modules) + "]"
     kw = "[" + "; ".join("(%s, %d%%nat)" % (c_str(k), intern(val)) for k, val in sorted(kwargs.items())) + "]"
     if obs["out"] == "product":
-        labels = {}
-        feats = []
-        for f in product["features"]:
-            g = dict(f)
-            if f["type"] == "source" and f.get("plasmid") is not None:
-                pid = f["plasmid"][0] if isinstance(f["plasmid"], list) else f["plasmid"]
-                g["plasmid_label"] = 901 + intern(pid)
-            feats.append(g)
-        p = dict(product, features=feats)
+        p = product
         unused = [objs[modules[i][1]["obj"]] for i in obs["unused"]]
         o = "(RProduct %s [%s])" % (c_record(p, "KCircularRecord", intern), "; ".join("%d%%nat" % u for u in unused))
     else:
